@@ -316,8 +316,8 @@ impl Check for C19 {
     fn plan(&self, tier: Tier) -> Vec<Section> {
         match tier {
             Tier::Quick => vec![
-                Section { name: "histories-from-polling-simulation", runs: 3_000 },
-                Section { name: "seeded-synthetic-histories", runs: 6_000 },
+                Section { name: "histories-from-polling-simulation", runs: 10_000 },
+                Section { name: "seeded-synthetic-histories", runs: 30_000 },
             ],
             Tier::Thorough => vec![
                 Section { name: "histories-from-polling-simulation", runs: 200_000 },
